@@ -34,6 +34,8 @@ Inductive cmd : Type :=
           (* entry = how many log entries back from the current one (refs/stacks/b~k) *)
 | CRepair
 | CLogClear
+| CEdit (loc : option str) (meta : N) (msg : str)            (* stg edit -m <msg> [<patch>] *)
+| CRebase (target : gtarget)                                  (* stg rebase <committish> *)
 | CInspect                                                    (* series/id/top/... : open only *)
 (* plain git, outside stg *)
 | GEdit (cell : nat) (v : N)                                  (* modify the work tree + index *)
@@ -1011,6 +1013,111 @@ Definition run_git (w : world) (c : cmd) : world * exitc :=
   | _ => (w, X2)
   end.
 
+(* ---------------------------------------------------------------- edit / rebase *)
+
+(* the applied patches above n (empty when n is not applied) *)
+Fixpoint after_name (n : name) (l : list name) : list name :=
+  match l with
+  | [] => []
+  | x :: r => if name_eqb x n then r else after_name n r
+  end.
+
+(* stg edit -m <msg> [<patch>] without an editor: EditBuilder makes a new commit (same
+   parents, same tree) unless nothing changed, in which case no transaction runs at all; the
+   patches above are popped and pushed back *)
+Definition run_edit (w : world) (loc : option str) (meta : N) (msg : str) : world * exitc :=
+  let loc_l := match loc with
+               | Some o => match parse_locator o with Some l => Some (Some l) | None => None end
+               | None => Some None end in
+  match loc_l with
+  | None => (w, X1)
+  | Some loc_l =>
+      match open_stack PAllow w with
+      | None => err2 w
+      | Some op =>
+          let w1 := op_world op in
+          let s := op_state op in
+          if negb (head_top_ok op) then err2 w1
+          else
+            let pn_r : rres name :=
+              match loc_l with
+              | Some l => resolve_name (view_of s) l
+              | None => match last_error (s_applied s) with
+                        | Some n => ROk n | None => RErr ENoLastPatch end
+              end in
+            rres_bind w1 pn_r (fun pn =>
+              match pm_get (s_patches s) pn with
+              | None => (w1, XPanic)
+              | Some pc =>
+                  match get (w_objs w1) pc with
+                  | None => (w1, XPanic)
+                  | Some old =>
+                      if (c_meta old =? meta)%N && str_eqb (c_subj old) msg then ok0 w1
+                      else
+                        let '(objs1, o) := put (w_objs w1) (plain (c_parents old) (c_tree old) meta msg) in
+                        let op1 := mkOpened (with_objs w1 objs1) s (op_base op) (op_initialized op) in
+                        transact op1 (opts CAllow true false true true false)
+                          (fun t =>
+                             let above := after_name pn (t_applied t) in
+                             let '(t1, extra) := pop_patches (fun n => mem n above) t in
+                             match extra with
+                             | _ :: _ => TPanic
+                             | [] => tbind (update_patch pn o t1) (push_patches above false)
+                             end)
+                          MOp
+                  end
+              end)
+      end
+  end.
+
+Definition resolve_gtarget (w : world) (tgt : gtarget) : option oid :=
+  match tgt with
+  | TPatch n => match cur_state w with Some s => pm_get (s_patches s) n | None => None end
+  | TBaseAncestor k =>
+      match cur_state w with
+      | Some s => match stack_base (w_objs w) (w_branch w) s with
+                  | Some b => ancestor (w_objs w) b k | None => None end
+      | None => None end
+  | THeadAncestor k => ancestor (w_objs w) (w_branch w) k
+  end.
+
+(* stg rebase <committish> (no --interactive / --nopush / --merged / --autostash): pop
+   everything, `git reset --hard <target>`, record the moved head, push everything back *)
+Definition run_rebase (w : world) (tgt : gtarget) : world * exitc :=
+  match open_stack PRequire w with
+  | None => err2 w
+  | Some op =>
+      let w1 := op_world op in
+      let s := op_state op in
+      match resolve_gtarget w1 tgt with
+      | None => err2 w1
+      | Some target =>
+          if Nat.eqb target (op_base op) then ok0 w1
+          else if negb (head_top_ok op) then err2 w1
+          else if dirty w1 then err2 w1
+          else
+            let applied := s_applied s in
+            match transact op (opts CDisallow true false true true false)
+                           (fun t => TOk (fst (pop_patches (fun n => mem n applied) t))) MOp with
+            | (w2, X0) =>
+                let w3 := mkWorld (w_objs w2) target (w_stack w2) (w_prefs w2)
+                                  (tree_of (w_objs w2) target) false (w_base w2) in
+                match open_stack PRequire w3 with
+                | None => err2 w3
+                | Some op3 =>
+                    match log_extmods_first op3 with
+                    | None => err2 (op_world op3)
+                    | Some op4 =>
+                        if negb (head_top_ok op4) then err2 (op_world op4)
+                        else transact op4 (opts CDisallow true false true true false)
+                                      (push_patches applied false) MOp
+                    end
+                end
+            | r => r
+            end
+      end
+  end.
+
 (* ---------------------------------------------------------------- dispatcher *)
 
 Section Step.
@@ -1040,6 +1147,8 @@ Section Step.
     | CReset e r h => run_reset w e r h
     | CRepair => run_repair lower_s w
     | CLogClear => run_log_clear w
+    | CEdit l m msg => run_edit w l m msg
+    | CRebase t => run_rebase w t
     | CInspect => match open_stack PAllow w with
                   | Some op => (op_world op, X0) | None => err2 w end
     | GEdit _ _ | GCommit _ _ | GAmend _ _ | GResetHard _ | GMerge _ => run_git w c
